@@ -43,6 +43,7 @@ func plansFor(prop string, thorough bool) ([]Plan, int) {
 		return []Plan{
 			{Name: "gov-bad", Const: "gov", Kinds: []string{"vote", "seen", "dkgres", "bad", "replay", "chk"}, Depth: d(3, 4),
 				SimNum: d(60, 1500), SimDepth: d(30, 50), MaxBeh: d(2500, 40000)},
+			{Name: "chk-limit", Const: "one", Kinds: []string{"chk", "seen"}, Depth: d(13, 15), MaxBeh: d(3000, 0)},
 			{Name: "gov-ni", Const: "ni", Kinds: []string{"vote", "seen"}, Depth: d(7, 8), Product: "ni", Twins: "c10", MaxBeh: d(1500, 20000)},
 			{Name: "gov-ni-bad", Const: "ni", Kinds: []string{"vote", "seen", "dkgres", "bad", "replay"}, Depth: d(2, 3), Product: "ni", Twins: "c10", MaxBeh: d(1500, 20000)},
 		}, 1
